@@ -45,6 +45,11 @@ pub(crate) struct DhtHandler {
     next_bootstrap_txs_id: u64,
     bootstrap_txs: HashMap<u64, oneshot::Sender<()>>,
 
+    // Whether the initial bootstrap has completed.
+    initial_bootstrap_done: bool,
+    // Lookups requested before the initial bootstrap completed.
+    queued_lookups: Vec<StartLookup>,
+
     // TableRefresh action.
     refresh: TableRefresh,
     // Ongoing TableLookups.
@@ -91,6 +96,8 @@ impl DhtHandler {
             bootstrap,
             next_bootstrap_txs_id: 0,
             bootstrap_txs: HashMap::new(),
+            initial_bootstrap_done: false,
+            queued_lookups: Vec::new(),
             refresh: table_refresh,
             lookups: HashMap::new(),
         }
@@ -435,9 +442,22 @@ impl DhtHandler {
 
         // Start the refresh action.
         self.handle_check_table_refresh().await;
+
+        // Start the lookups that were requested before the initial bootstrap completed.
+        self.initial_bootstrap_done = true;
+        for lookup in std::mem::take(&mut self.queued_lookups) {
+            self.handle_start_lookup(lookup).await;
+        }
     }
 
     async fn handle_start_lookup(&mut self, lookup: StartLookup) {
+        // The routing table is still empty during the initial bootstrap: queue the lookup and
+        // start it once the bootstrap has completed.
+        if !self.initial_bootstrap_done && !self.is_bootstrapped() {
+            self.queued_lookups.push(lookup);
+            return;
+        }
+
         // Start the lookup right now if not bootstrapping
         let mid_generator = self.aid_generator.generate();
         let action_id = mid_generator.action_id();
